@@ -1,7 +1,7 @@
 #!/bin/bash
 # tools/run_all.sh [tier] : run every registered check on /repo, one after the other; summary on stdout
 tier=${1:-quick}
-cd /verif
+cd "$(dirname "$0")/.."
 for p in C01 C02 C03 C04 C05 C06 C07 C08 C09 C10 C11 C12 C13 C14 C15 C16 C17 C18 C19 C20; do
   s=$(date +%s); ./check $p --tier $tier > /tmp/runall_$p.out 2> /tmp/runall_$p.err; rc=$?
   echo "$p rc=$rc $(( $(date +%s) - s ))s $(tail -1 /tmp/runall_$p.out | cut -c1-100) $(grep -c KNOWN /tmp/runall_$p.out) known"
